@@ -603,6 +603,9 @@ var asiHazards = []string{
 	"for (var f = async () => ('x' in {x: 1}); ; ) { return typeof f }",
 	"for (var x = a ? ('x' in {x: 1}) : ('y' in {x: 1}); ; ) { return x }",
 	"for (var x = H.p(1, a) || ('x' in {x: 1}), y = !('x' in {}); ; ) { return [x, y] }",
+	// call expressions as assignment targets: a run-time ReferenceError, only when evaluated (recorded finding in C13)
+	"if (H.p(1, 0)) { H.f(2, 1)()++; } return 2;",
+	"if (H.p(1, 0)) { for (H.f(2, 1)() in {x: 1}) ; } return 2;",
 }
 
 func asiSpace() xseg {
